@@ -3,6 +3,7 @@
 import ast
 
 from ..astutil import call_attr, call_recv, calls_in, const_value, norm, walk_own
+from ..index import AnalysisError
 from ..selftest import Mutant
 
 ID = "C51"
@@ -180,7 +181,7 @@ def run(ctx):
             refused = True
     except (Raised, Unsupported, AttributeError, TypeError, ValueError) as ex:
         evaluable = False
-        ctx.info("plan-roundtrip-table", wrt, f"not evaluable ({ex}); not decided on this run")
+        raise AnalysisError(f"{wrt}: not evaluable by the abstract interpreter ({ex}) — hand-confirmed evaluable on the pinned tree, so the rule cannot be decided on this one")
     if evaluable:
         ctx.fact(len(infos) * len(plans) + 1)
         ctx.check("plan-roundtrip-table", wrt, not bad, f"unmarshall(marshall(info, plan)) == (info, plan), entry order kept, for {len(infos) * len(plans)} plans (empty plan, 0-3 parents, several entries, revno 0, ids with ':', '@', '#', '-')", construct=repr(bad[0][1:])[:200] if bad else "", message=f"a saved rebase plan does not load back unchanged: plan {bad[0][1] if bad else ''!r} is written as {bad[0][2] if bad else b''!r} and read as {bad[0][3] if bad else ''!r} — an interrupted rebase continues with different parents or loses entries")
@@ -259,7 +260,7 @@ def run(ctx):
             sbad.append(f"the plan and the active revision share a file or use several: {sorted(files)}")
     except (Unsupported, AttributeError, TypeError, ValueError) as ex:
         sevaluable = False
-        ctx.info("state-roundtrip-table", wst, f"not evaluable ({ex}); not decided on this run")
+        raise AnalysisError(f"{wst}: not evaluable by the abstract interpreter ({ex}) — hand-confirmed evaluable on the pinned tree, so the rule cannot be decided on this one")
     if sevaluable:
         ctx.fact(3 * 12 * 2 + 9)
         ctx.check("state-roundtrip-table", wst, not sbad, "has_plan/read_plan return what write_plan stored (36 plans), remove_plan empties it, read_active_revid returns what write_active_revid stored, None included", construct=sbad[0][:200] if sbad else "", message=f"the saved rebase state does not load back: {sbad[0] if sbad else ''} — `rebase-continue` after an interruption works on a different plan or refuses a valid one")
